@@ -1,16 +1,133 @@
-(* C15 -- SDP and SCP packets encode to the wire layout and decode back unchanged. *)
+(* C15 -- SDP and SCP packets encode to the wire layout and decode back unchanged.
+
+   Theorems only; each is closed by `exact` of a lemma of Proofs/Packet.v / Proofs/PacketCodec.v.
+   The model (Model/Packet.v) packs and unpacks with the struct format STRINGS, flag constants, header value
+   expressions (masks, shifts, order of x and y), decode expressions, slice offsets and argument guards that
+   Generated/GenPackets.v takes from rig/machine_control/packets.py on every run, so these theorems are
+   re-checked against the current text of the source.  The layout itself (Spec/Packet.v: sdp_wire, scp_wire)
+   is written independently, byte by byte, with plain arithmetic. *)
 From Coq Require Import ZArith String List Bool.
-Require Import Rig.Generated.GenPackets Rig.Model.Base Rig.Model.Packet Rig.Spec.Packet Rig.Proofs.Packet.
+Require Import Rig.Generated.GenPackets Rig.Model.Base Rig.Model.Packet Rig.Spec.Packet.
+Require Import Rig.Proofs.Packet Rig.Proofs.PacketCodec.
 Import ListNotations.
 Open Scope Z_scope.
 
-Theorem C15_formats_parse :
-  parse_fmt sdp_header_fmt = Some ([FPad; FPad] ++ repeat (FUInt 1) 8)
-  /\ parse_fmt sdp_unpack_fmt = Some ([FPad; FPad] ++ repeat (FUInt 1) 8)
-  /\ parse_fmt scp_header_fmt = Some [FUInt 2; FUInt 2]
-  /\ parse_fmt scp_unpack_header_fmt = Some [FUInt 2; FUInt 2]
-  /\ parse_fmt scp_pack_arg1_fmt = Some [FUInt 4] /\ parse_fmt scp_pack_arg2_fmt = Some [FUInt 4]
-  /\ parse_fmt scp_pack_arg3_fmt = Some [FUInt 4]
-  /\ parse_fmt scp_unpack_arg1_fmt = Some [FUInt 4] /\ parse_fmt scp_unpack_arg2_fmt = Some [FUInt 4]
-  /\ parse_fmt scp_unpack_arg3_fmt = Some [FUInt 4].
-Proof. exact formats_parse. Qed.
+(* ---- 1. Encoding produces the documented layout.
+   For every packet whose fields are within their widths (3-bit ports, 5-bit cores, 8-bit tag and
+   coordinates, 16-bit cmd_rc and seq, 32-bit arguments), every payload, 0-3 arguments present in any
+   combination: two padding bytes, flags (0x87/0x07), tag, 32*dest_port+dest_cpu, 32*src_port+src_cpu,
+   dest_y, dest_x, src_y, src_x; then for SCP cmd_rc, seq (16-bit little endian), each present argument
+   (32-bit little endian), the payload. *)
+Theorem C15_sdp_layout :
+  forall p, sdp_in_width p -> sdp_bytes p = Ok (sdp_wire p).
+Proof. exact sdp_layout. Qed.
+
+Theorem C15_scp_layout :
+  forall q, scp_in_width q -> scp_bytes q = Ok (scp_wire q).
+Proof. exact scp_layout. Qed.
+
+(* the encodings are byte strings (every element 0..255) when the payload is *)
+Theorem C15_scp_wire_wellformed :
+  forall q, scp_in_width q -> bytes (data (sdp_part q)) -> bytes (scp_wire q).
+Proof. exact scp_wire_bytes. Qed.
+
+Theorem C15_sdp_wire_wellformed :
+  forall p, sdp_in_width p -> bytes (data p) -> bytes (sdp_wire p).
+Proof. exact sdp_wire_bytes. Qed.
+
+(* ---- 1b. Outside the widths (the error branch, stated, for every packet of integers): ports and cores
+   are reduced modulo 8 / 32 by the code's masks and never raise; any other field outside its width makes
+   struct.pack raise (struct.error = OtherError) and nothing else does. *)
+Theorem C15_sdp_bytes_outcome :
+  forall p, (sdp_packable p /\ sdp_bytes p = Ok (sdp_wire (mask_ports p)))
+            \/ (~ sdp_packable p /\ sdp_bytes p = OtherError).
+Proof. exact sdp_bytes_outcome. Qed.
+
+Theorem C15_scp_bytes_outcome :
+  forall q, (scp_packable q /\ scp_bytes q = Ok (scp_wire (scp_mask_ports q)))
+            \/ (~ scp_packable q /\ scp_bytes q = OtherError).
+Proof. exact scp_bytes_outcome. Qed.
+
+(* ---- 2. Decoding those bytes with the same argument count yields a packet equal in every field
+   (equality of the whole record: header fields, cmd_rc, seq, the three arguments, the payload). *)
+Theorem C15_sdp_decode_encode :
+  forall p, sdp_in_width p -> exists bs, sdp_bytes p = Ok bs /\ sdp_of_bytes bs = Ok p.
+Proof. exact sdp_decode_encode. Qed.
+
+Theorem C15_scp_decode_encode :
+  forall q, scp_in_width q -> args_prefix q ->
+            exists bs, scp_bytes q = Ok bs /\ scp_of_bytes bs (n_present q) = Ok q.
+Proof. exact scp_decode_encode. Qed.
+
+(* The guard args_prefix (the present arguments are arg1..argk) is necessary, not a convenience: the wire
+   carries no presence bits, decoding ALWAYS returns a prefix, so a packet such as (arg1 absent, arg2 = 5)
+   is the decoding of no byte string under any n_args. *)
+Theorem C15_decoded_args_are_a_prefix :
+  forall bs n q, scp_of_bytes bs n = Ok q -> args_prefix q.
+Proof. exact decoded_args_prefix. Qed.
+
+Theorem C15_roundtrip_without_prefix_refuted :
+  scp_in_width nonprefix_witness /\ ~ args_prefix nonprefix_witness
+  /\ scp_bytes nonprefix_witness = Ok [0; 0; 7; 255; 34; 255; 4; 3; 0; 0; 1; 0; 0; 0; 5; 0; 0; 0]
+  /\ forall bs n, scp_of_bytes bs n <> Ok nonprefix_witness.
+Proof. exact roundtrip_needs_prefix. Qed.
+
+(* ---- 3. Every field survives over its full width without disturbing its neighbours: two in-width
+   packets that differ in one field only have encodings that differ only in the bits that field owns
+   (header fields: their byte, ports the top three bits and cores the low five bits of the shared byte;
+   cmd_rc bytes 10-11; seq 12-13; an argument its four bytes; the payload everything after the arguments),
+   and have the same length unless the payload changed.  (That the field's own bits carry its whole value is
+   theorems 1 and 2.) *)
+Theorem C15_scp_field_isolation :
+  forall f q q', scp_in_width q -> scp_in_width q' -> same_except f q q' ->
+    exists bs bs', scp_bytes q = Ok bs /\ scp_bytes q' = Ok bs' /\ differ_only_in f q bs bs'.
+Proof. exact scp_field_isolation. Qed.
+
+Theorem C15_sdp_field_isolation :
+  forall f p p', sdp_in_width p -> sdp_in_width p' -> sdp_same_except f p p' ->
+    exists bs bs', sdp_bytes p = Ok bs /\ sdp_bytes p' = Ok bs' /\ sdp_differ_only_in f bs bs'.
+Proof. exact sdp_field_isolation. Qed.
+
+(* ---- 4. Decoding ANY byte string that holds a complete header (no other assumption: any bytes, any
+   n_args, negative included): every field is read from its documented position, and exactly
+   args_taken n_args len = max 0 (min n_args ((len - 14) / 4) 3) arguments are taken -- as many as both the
+   caller allows and the data contains -- the rest, from byte 14 + 4k on, is the payload.  This covers the
+   lengths 14+1 .. 14+11 that end inside the argument words.  Shorter strings raise (struct.error). *)
+Theorem C15_scp_decode_args_min :
+  forall bs n_args, (14 <= length bs)%nat ->
+    exists q, scp_of_bytes bs n_args = Ok q /\ scp_decoded bs n_args q.
+Proof. exact scp_decode_spec. Qed.
+
+Theorem C15_scp_decode_short_raises :
+  forall bs n_args, (length bs < 14)%nat -> scp_of_bytes bs n_args = OtherError.
+Proof. exact scp_of_bytes_short. Qed.
+
+Theorem C15_sdp_decode :
+  forall bs, (10 <= length bs)%nat -> exists p, sdp_of_bytes bs = Ok p /\ sdp_decoded bs p.
+Proof. exact sdp_decode_spec. Qed.
+
+Theorem C15_sdp_decode_short_raises :
+  forall bs, (length bs < 10)%nat -> sdp_of_bytes bs = OtherError.
+Proof. exact sdp_of_bytes_short. Qed.
+
+(* ---- Non-vacuity: a packet with every port/core/cmd_rc/arg1 at the top of its width, two arguments and
+   a payload satisfies the hypotheses, encodes to the bytes shown and decodes back to itself; a string whose
+   payload ends inside the second argument word; a pair of packets related by same_except. *)
+Example C15_hypotheses_satisfiable :
+  scp_in_width ex_scp /\ args_prefix ex_scp /\ n_present ex_scp = 2
+  /\ scp_bytes ex_scp = Ok [0; 0; 135; 255; 241; 255; 254; 255; 2; 1; 255; 255; 2; 1;
+                           255; 255; 255; 255; 3; 2; 1; 0; 9; 8; 7]
+  /\ bind (scp_bytes ex_scp) (fun bs => scp_of_bytes bs 2) = Ok ex_scp.
+Proof. exact ex_scp_instance. Qed.
+
+Example C15_decode_inside_argument_word :
+  exists q, scp_of_bytes [0; 0; 7; 1; 2; 3; 4; 5; 6; 7; 8; 9; 10; 11; 12; 13; 14; 15; 16; 17] 3 = Ok q
+            /\ arg1 q = Some 252579084 /\ arg2 q = None /\ arg3 q = None /\ data (sdp_part q) = [16; 17].
+Proof. exact ex_decode_inside_word. Qed.
+
+Example C15_same_except_satisfiable :
+  same_except FDestCpu ex_scp
+    {| sdp_part := {| reply_expected := true; tag := 255; dest_port := 7; dest_cpu := 0; src_port := 7;
+                      src_cpu := 31; dest_x := 255; dest_y := 254; src_x := 1; src_y := 2; data := [9; 8; 7] |};
+       cmd_rc := 65535; seq := 258; arg1 := Some 4294967295; arg2 := Some 66051; arg3 := None |}.
+Proof. exact ex_same_except. Qed.
